@@ -55,6 +55,9 @@ type ScriptObs struct {
 	TrunkAB string `json:"trunk_ab"`
 	TrunkBA string `json:"trunk_ba"`
 	Crashed string `json:"crashed"`
+	// what Open does on an already closed mux, measured on the code this observation comes
+	// from (ProbeLateOpen); a parameter of the model
+	LateClosed bool `json:"late_closed"`
 }
 
 type endState struct {
@@ -75,7 +78,7 @@ func (e *endState) handle(c net.Conn) int {
 }
 
 func RunScript(in ScriptIn) ScriptObs {
-	obs := ScriptObs{Res: make([]Res, len(in.Ops)), Late: []Late{}}
+	obs := ScriptObs{LateClosed: ProbeLateOpen(), Res: make([]Res, len(in.Ops)), Late: []Late{}}
 	ca, cb, err := Pair()
 	if err != nil {
 		obs.Crashed = "harness: " + err.Error()
